@@ -937,7 +937,9 @@ func shrinkC10(c *C10Case) *C10Case {
 		if len(c.Elems) > 0 {
 			d := cl(c)
 			d.Elems = d.Elems[:len(d.Elems)-1]
-			d.Nil = d.Nil[:len(d.Nil)-1]
+			if len(d.Nil) > len(d.Elems) {
+				d.Nil = d.Nil[:len(d.Elems)]
+			}
 			if try(d) {
 				changed = true
 			}
